@@ -280,6 +280,8 @@ private:
                 return false;
             }
 
+            VERIF_COV(C_CHAN_SEND_WAIT);
+            VERIF_POINT(P_CHAN_SEND_BEFORE_WAIT);
             m_senders_waiting.fetch_add(1, std::memory_order_acq_rel);
             int ret = m_send_sem.wait(1, timeout.timeout_us());
             m_senders_waiting.fetch_sub(1, std::memory_order_acq_rel);
@@ -305,6 +307,7 @@ private:
                 return true;
             }
 
+            VERIF_POINT(P_CHAN_RECV_BEFORE_WAIT);
             if (m_closed.load(std::memory_order_acquire)) {
                 return false;  // Closed and empty
             }
@@ -314,6 +317,8 @@ private:
                 return false;
             }
 
+            VERIF_COV(C_CHAN_RECV_WAIT);
+            VERIF_POINT(P_CHAN_RECV_BEFORE_WAIT);
             m_receivers_waiting.fetch_add(1, std::memory_order_acq_rel);
             int ret = m_recv_sem.wait(1, timeout.timeout_us());
             m_receivers_waiting.fetch_sub(1, std::memory_order_acq_rel);
@@ -371,6 +376,7 @@ private:
                 errno = ETIMEDOUT;
                 return false;
             }
+            VERIF_COV(C_CHAN_SEND_WAIT);
             if (m_unbuf_send_cv.wait(m_unbuf_mutex, timeout) < 0 && errno == ETIMEDOUT) {
                 delete ptr;
                 return false;
@@ -384,6 +390,12 @@ private:
         }
 
         // Place value in handoff slot
+#ifdef PHOTON_VERIF
+        if (m_handoff_ready) {  // the rendezvous slot is written while it is still full
+            VERIF_COV(C_CHAN_SLOT_OVERWRITE);
+            VERIF_EVENT(E_CHAN_SLOT_OVERWRITE, this, 0);
+        }
+#endif
         m_handoff_ptr = ptr;
         m_handoff_ready = true;
         m_unbuf_recv_cv.notify_one();
@@ -399,6 +411,7 @@ private:
                 errno = ETIMEDOUT;
                 return false;
             }
+            VERIF_COV(C_CHAN_SEND_WAIT);
             m_unbuf_send_cv.wait(m_unbuf_mutex, timeout);
         }
 
@@ -419,6 +432,7 @@ private:
                 errno = ETIMEDOUT;
                 return false;
             }
+            VERIF_COV(C_CHAN_RECV_WAIT);
             if (m_unbuf_recv_cv.wait(m_unbuf_mutex, timeout) < 0 && errno == ETIMEDOUT) {
                 return false;
             }
